@@ -468,11 +468,12 @@ class Buildable(Generic[T], metaclass=abc.ABCMeta):
     key = self.__signature_info__.index_to_key(key, self.__arguments__)
     positional_num = self.__signature_info__.var_positional_start
     if positional_num is None:
-      # *args does not exist
-      positional_num = len(self.__signature_info__.parameters)
-      if self.__signature_info__.var_keyword_name:
-        # Exclude **kwargs
-        positional_num -= 1
+      # *args does not exist: count the parameters that can be passed by
+      # position (excludes keyword-only parameters and **kwargs).
+      positional_num = sum(
+          param.kind in (param.POSITIONAL_ONLY, param.POSITIONAL_OR_KEYWORD)
+          for param in self.__signature_info__.parameters.values()
+      )
 
     # Cannot set item when index is beyond current positional args list length.
     # Only index that points to *args can be out of range.
